@@ -26,6 +26,16 @@ func Root() string {
 	return "/verif"
 }
 
+// OutRoot is where evidence/ and replays/ are written: VERIF_OUT if set (used when
+// checks are pointed at a scratch worktree, so that /verif's committed evidence is
+// not overwritten), else Root().
+func OutRoot() string {
+	if r := os.Getenv("VERIF_OUT"); r != "" {
+		return r
+	}
+	return Root()
+}
+
 // Violation is one counterexample.
 type Violation struct {
 	// Signature identifies the failing input/call site/history specifically
@@ -226,7 +236,7 @@ func (r *Run) Finish(cov Coverage) {
 		"violations":  len(r.seenSig),
 	}
 	if r.Replay == "" {
-		dir := filepath.Join(Root(), "evidence")
+		dir := filepath.Join(OutRoot(), "evidence")
 		os.MkdirAll(dir, 0777)
 		b, _ := json.MarshalIndent(evd, "", " ")
 		tmp := filepath.Join(dir, "."+r.ID+".tmp")
@@ -237,7 +247,7 @@ func (r *Run) Finish(cov Coverage) {
 	for _, v := range r.violations {
 		b, _ := json.MarshalIndent(map[string]interface{}{"property": r.ID, "violation": v}, "", " ")
 		h := sha256.Sum256([]byte(v.Signature))
-		dir := filepath.Join(Root(), "replays", r.ID)
+		dir := filepath.Join(OutRoot(), "replays", r.ID)
 		os.MkdirAll(dir, 0777)
 		p := filepath.Join(dir, hex.EncodeToString(h[:6])+".json")
 		os.WriteFile(p, append(b, '\n'), 0666)
